@@ -190,6 +190,21 @@ def tr_expr(e, cx):
             if cx.types.get(base) == "period":
                 return (f"{cx.name(base)}.{'1' if e.attr == 'start' else '2'}", "time", False)
         raise Untranslatable(f"attribute {e.attr}")
+    if isinstance(e, ast.Subscript):
+        # environ["SCRIPT_NAME"]: a named entry of a mapping parameter (declared in the spec)
+        if isinstance(e.value, ast.Name) and isinstance(e.slice, ast.Constant) \
+                and (e.value.id, e.slice.value) in cx.spec.get("subscripts", {}):
+            nm, ty = cx.spec["subscripts"][(e.value.id, e.slice.value)]
+            return (nm, ty, False)
+        # s[len(t):]  (the only slice shape supported)
+        if isinstance(e.slice, ast.Slice) and e.slice.upper is None and e.slice.step is None \
+                and e.slice.lower is not None:
+            v, vty, vm = tr_expr(e.value, cx)
+            lo, loty, lom = tr_expr(e.slice.lower, cx)
+            if vty != "str" or loty != "nat" or vm or lom:
+                raise Untranslatable(f"slice of {vty} from {loty}")
+            return (f"(List.drop {paren(lo)} {paren(v)})", "str", False)
+        raise Untranslatable("subscript shape")
     if isinstance(e, ast.Call):
         return tr_call(e, cx)
     raise Untranslatable(f"expression {ast.dump(e)[:80]}")
@@ -288,6 +303,11 @@ def tr_call(e, cx):
                 return (f"(Py.Str.upperAscii {paren(recv_t)})", "str", False)
         raise Untranslatable(f"method {f.attr} on {recv_ty}")
     if isinstance(f, ast.Name):
+        if f.id == "len" and len(e.args) == 1 and not e.keywords:
+            a, aty, am = tr_expr(e.args[0], cx)
+            if aty != "str" or am:
+                raise Untranslatable("len of " + aty)
+            return (f"(List.length {paren(a)})", "nat", False)
         if f.id == "_as_list" and len(e.args) == 1:
             a, aty, am = tr_expr(e.args[0], cx)
             if not aty.startswith("list:") or am:
@@ -339,6 +359,11 @@ def tr_block(stmts, cx, indent):
         want = cx.spec["returns"]
         if want == "bool" and ty != "bool":
             t = truthy(t, ty) if not m else t
+        if want == "ostr":
+            if ty == "str":
+                t = f"(some {paren(t)})"
+            elif ty not in ("ostr", "none"):
+                raise Untranslatable(f"return of {ty} where Optional[str] is declared")
         if cx.monadic:
             return pad + lift(t, m)
         if m:
@@ -366,6 +391,29 @@ def tr_block(stmts, cx, indent):
             return pad + f"(do let {cx.name(name)} ← {t}\n{tr_block(rest, cx, indent + 1)})" if False else \
                 pad + f"({t} >>= fun {cx.name(name)} =>\n{tr_block(rest, cx, indent + 1)})"
         return pad + f"let {cx.name(name)} := {t}\n{tr_block(rest, cx, indent)}"
+    if isinstance(s, ast.If) and not s.orelse and isinstance(s.test, ast.Compare) and len(s.test.ops) == 1 \
+            and isinstance(s.test.ops[0], ast.Is) and isinstance(s.test.left, ast.Name) \
+            and cx.types.get(s.test.left.id) == "ostr" and isinstance(s.test.comparators[0], ast.Constant) \
+            and s.test.comparators[0].value is None and leaves(s.body) and not cx.monadic:
+        # `if x is None: <leave>` narrows x to str in the rest
+        x = s.test.left.id
+        thn = tr_block(s.body, cx, indent + 2)
+        saved = dict(cx.types)
+        cx.types[x] = "str"
+        els = tr_block(rest, cx, indent + 2)
+        cx.types = saved
+        return pad + f"(match {cx.name(x)} with\n{pad}  | none =>\n{thn}\n{pad}  | some {cx.name(x)} =>\n{els})"
+    if isinstance(s, ast.If) and not s.orelse and not leaves(s.body) and s.body \
+            and all(isinstance(b, ast.Assign) and len(b.targets) == 1 and isinstance(b.targets[0], ast.Name)
+                    and b.targets[0].id in cx.types for b in s.body) and len(s.body) == 1:
+        # `if C: v = E` with v already bound: v := if C then E else v
+        t, ty, m = tr_expr(s.test, cx)
+        b = s.body[0]
+        v = b.targets[0].id
+        et, ety, em = tr_expr(b.value, cx)
+        if m or em or ety != cx.types[v]:
+            raise Untranslatable("conditional re-assignment shape")
+        return pad + f"let {cx.name(v)} := (if {truthy(t, ty)} then {et} else {cx.name(v)})\n{tr_block(rest, cx, indent)}"
     if isinstance(s, ast.If):
         t, ty, m = tr_expr(s.test, cx)
         cond = t if m else truthy(t, ty)
@@ -440,7 +488,7 @@ def leaves(stmts):
 # ---------------------------------------------------------------------------
 # which functions
 
-LEAN_TY = {"str": "List Char", "ostr": "Option (List Char)", "bool": "Bool", "time": "Int", "comp": "Py.Comp",
+LEAN_TY = {"nat": "Nat", "str": "List Char", "ostr": "Option (List Char)", "bool": "Bool", "time": "Int", "comp": "Py.Comp",
            "tzify": "Py.TVal → Int", "oprop": "Option Py.TVal", "tval": "Py.TVal"}
 
 SPECS = [
@@ -449,6 +497,16 @@ SPECS = [
          rename={"self.path": "root"}, extra_types={"self.path": "str"}, lean_params=[("root", "str"), ("relpath", "str")]),
     dict(module="Etag", file="xandikos/webdav.py", func="etag_matches", lean="etag_matches",
          params=[("condition", "str"), ("actual_etag", "ostr")], returns="bool"),
+    dict(module="Href", file="xandikos/webdav.py", func="ensure_trailing_slash", lean="ensure_trailing_slash",
+         params=[("href", "str")], returns="str"),
+    dict(module="Href", file="xandikos/webdav.py", func="href_to_path", lean="href_to_path",
+         params=[("environ", "environ"), ("href", "str")], returns="ostr", pathctx=True,
+         subscripts={("environ", "SCRIPT_NAME"): ("script", "str")},
+         lean_params=[("script", "str"), ("href", "str")]),
+    dict(module="StrongEtag", file="xandikos/web.py", func="create_strong_etag", lean="create_strong_etag",
+         params=[("etag", "str")], returns="str"),
+    dict(module="StrongEtag", file="xandikos/web.py", func="extract_strong_etag", lean="extract_strong_etag",
+         params=[("etag", "ostr")], returns="ostr"),
     dict(module="Collation", file="xandikos/collation.py", func="_match", lean="match_",
          params=[("a", "str"), ("b", "str"), ("k", "str")], returns="bool", raises=True),
     dict(module="TimeRange", file="xandikos/icalendar.py", func="apply_time_range_vevent", lean="apply_time_range_vevent",
